@@ -18,6 +18,7 @@ pub struct Ctx {
     pub search_running: StdAtomicUsize, // searches entered and not yet finished
     pub search_entered: StdAtomicUsize,
     pub idle_polls_after_done: StdAtomicUsize,
+    pub current_go: StdAtomicUsize, // set by the harness body before each go (a go on a finished game consults no clock)
     pub handles: std::sync::Mutex<Vec<loom::thread::JoinHandle<()>>>,
     // observations (std primitives: no scheduling points, never held across one)
     pub captured: std::sync::Mutex<Vec<(String, bool, usize)>>, // (line, clock expired when captured, go index)
@@ -38,6 +39,7 @@ pub fn install(expiry: Vec<usize>, stop_depth: u8) -> Arc<Ctx> {
         search_running: StdAtomicUsize::new(0),
         search_entered: StdAtomicUsize::new(0),
         idle_polls_after_done: StdAtomicUsize::new(0),
+        current_go: StdAtomicUsize::new(0),
         handles: std::sync::Mutex::new(Vec::new()),
         captured: std::sync::Mutex::new(Vec::new()),
         search_panics: std::sync::Mutex::new(Vec::new()),
@@ -118,7 +120,7 @@ pub mod hooks {
         let c = ctx();
         // did the printing thread's own latest consultation say "expired"?
         let expired = my_last_answer_expired();
-        let go = c.clocks.lock().unwrap().len().saturating_sub(1);
+        let go = c.current_go.load(SeqCst);
         c.captured.lock().unwrap().push((msg.to_string(), expired, go));
         true
     }
